@@ -60,9 +60,11 @@ func normalizeForABCI(ops []Op) []Op {
 }
 
 type abciResult struct {
-	Blocks int
-	Txs    int
-	Err    string // divergence description ("" = conforms)
+	Blocks   int
+	Txs      int
+	Err      string         // divergence description ("" = conforms)
+	Refused  map[string]int // op kind -> signed transactions the node refused (code != 0)
+	Accepted map[string]int
 }
 
 func signerOf(op Op) string {
@@ -83,7 +85,7 @@ func ReplayABCI(cfg world.Config, ops []Op) abciResult {
 	if err1 != nil || err2 != nil {
 		return abciResult{Err: fmt.Sprintf("cannot build worlds: %v %v", err1, err2)}
 	}
-	res := abciResult{}
+	res := abciResult{Refused: map[string]int{}, Accepted: map[string]int{}}
 	txCfg := authtx.NewTxConfig(wA.App.AppCodec(), authtx.DefaultSignModes)
 	rnd := rand.New(rand.NewSource(7))
 	seqs := map[string]uint64{}
@@ -182,6 +184,11 @@ func ReplayABCI(cfg world.Config, ops []Op) abciResult {
 		}
 		for j, r := range fb.TxResults {
 			res.Txs++
+			if r.Code == 0 {
+				res.Accepted[txOps[j].Kind]++
+			} else {
+				res.Refused[txOps[j].Kind]++
+			}
 			if (r.Code == 0) != eAccepted[j] {
 				return abciResult{Blocks: res.Blocks, Txs: res.Txs, Err: fmt.Sprintf("block %d tx %d %v: node code %d (%s), emulation accepted=%v", height, j, txOps[j], r.Code, firstLine(r.Log), eAccepted[j])}
 			}
